@@ -4,6 +4,7 @@ From Boltons Require Import Lib.Prelude Model.C04_Model Spec.C04_Spec Check.C04_
 
 Open Scope nat_scope.
 Arguments upd {A} f k v x : simpl never.
+Ltac idc := (intros; eassumption).
 Ltac fsimp := unfold set_mode, set_vol, set_dur, set_name, fs_create; cbn [f_dir f_ino f_next i_vol i_dur i_mode].
 
 Lemma upd_eq {A} (f : nat -> A) k v : upd f k v k = v.
@@ -523,6 +524,151 @@ Section Inv.
     - auto.
     - intros e0 w (H & R). split; [right; exact H|exact R].
     - intros w (H & R). split; [right; exact H|exact R].
+  Qed.
+
+  (* ---- the program ---- *)
+  Lemma t_getfile {A} (k : fstate -> M A) (P : world -> Prop) (Q : A -> world -> Prop)
+        (E : exn -> world -> Prop) (C : world -> Prop) :
+    (forall f, triple (fun w => P w /\ w_file w = f) (k f) Q E C) ->
+    triple P (bind get_file k) Q E C.
+  Proof. intros H w Hw. unfold bind, get_file. apply (H (w_file w) w). auto. Qed.
+
+  Definition QS : unit -> world -> Prop := fun _ => L Safe.
+  Definition ES : exn -> world -> Prop := fun _ => L Safe.
+
+  Lemma any_safe w : L St_any w -> L Safe w.
+  Proof. intros (H & R). split; [left; exact H|exact R]. Qed.
+  Lemma init_safe w : L St_init w -> L Safe w.
+  Proof. intros (H & R). apply any_safe. split; [apply init_any; exact H|exact R]. Qed.
+  Lemma open_safe acc w : L (St_open acc) w -> L Safe w.
+  Proof. intros (H & R). apply any_safe. split; [eapply open_any; exact H|exact R]. Qed.
+  Lemma ready_safe acc w : L (St_ready acc) w -> L Safe w.
+  Proof. intros (H & R). apply any_safe. split; [eapply ready_any; exact H|exact R]. Qed.
+  Lemma post_safe w : L St_post w -> L Safe w.
+  Proof. intros (H & R). split; [right; exact H|exact R]. Qed.
+  Lemma done_safe w : L St_done w -> L Safe w.
+  Proof. intros ((H & _) & R). split; [right; exact H|exact R]. Qed.
+
+  (* a handler made of clean-up only, ending in a raise *)
+  Lemma cleanup_raise {A} e (Q : A -> world -> Prop) :
+    triple (L Safe) (rm_part_file c ;;; raise e) Q ES (L Safe).
+  Proof.
+    eapply t_bind with (Q := QS); [apply rm_part_safe|].
+    intros ?; cbv beta. apply t_raise. auto.
+  Qed.
+
+  Lemma open_part_ok :
+    triple (L St_init) (open_part_file c) (fun _ => L (St_open [])) ES (L Safe).
+  Proof.
+    unfold open_part_file.
+    eapply t_bind with (Q := fun _ => L St_init).
+    - destruct (c_file_perms c).
+      + apply t_ret. auto.
+      + eapply t_bind with (Q := fun _ => L St_init); [apply t_read; auto|].
+        intro st. apply t_ret. auto.
+    - intros [perms do_chmod].
+      eapply t_bind; [apply tr_open|]. intros ?; cbv beta.
+      eapply t_bind with (Q := fun _ => L (St_open [])).
+      + eapply t_catch; [apply tr_fdopen|]. intro e. apply cleanup_raise.
+      + intros ?; cbv beta. destruct do_chmod; [|apply t_ret; auto].
+        eapply t_catch; [apply tr_chmod|]. intro e.
+        eapply t_bind with (Q := QS).
+        * eapply t_catch; [apply weak_safe; exact I|]. intro e2. apply cleanup_raise.
+        * intros ?; cbv beta. apply cleanup_raise.
+  Qed.
+
+  Lemma setup_ok :
+    triple (L St_init) (setup c) (fun _ => L (St_open [])) ES (L Safe).
+  Proof.
+    unfold setup.
+    eapply t_bind with (Q := fun _ => L St_init); [apply t_read; auto|]. intro de.
+    destruct (de && negb (c_overwrite c)).
+    - apply t_raise. intros w H. apply init_safe. exact H.
+    - eapply t_bind with (Q := fun _ => L St_init); [apply t_read; auto|]. intro pe.
+      eapply t_bind with (Q := fun _ => L St_init).
+      + destruct (c_overwrite_part c && pe); [apply tr_unlink_init|apply t_ret; auto].
+      + intros ?; cbv beta. apply open_part_ok.
+  Qed.
+
+  Lemma run_body_ok ops : forall acc,
+    triple (L (St_open acc)) (run_body ops) (fun _ => L (St_open (acc ++ new_content ops))) ES (L Safe).
+  Proof.
+    induction ops as [|o r IH]; intro acc; cbn [run_body].
+    - apply t_ret. intros w H. cbn. rewrite app_nil_r. exact H.
+    - destruct o as [d k|].
+      + eapply t_bind; [apply tr_write|]. intros ?; cbv beta.
+        eapply t_conseq; [apply (IH (acc ++ d))|idc| |idc|idc].
+        intros ? w H. cbn [new_content flat_map]. fold (new_content r). rewrite app_assoc. exact H.
+      + eapply t_bind with (Q := fun _ => L (St_open acc)).
+        * eapply t_conseq; [apply tr_flush|idc| |idc|idc].
+          intros ? w (H & R). split; [apply flushed_open; exact H|exact R].
+        * intros ?; cbv beta. eapply t_conseq; [apply (IH acc)|idc| |idc|idc].
+          intros ? w H. cbn [new_content flat_map]. exact H.
+  Qed.
+
+  Lemma body_ok ops raises :
+    triple (L (St_open [])) (body ops raises) (fun _ => L (St_open (new_content ops))) ES (L Safe).
+  Proof.
+    unfold body. eapply t_bind; [apply (run_body_ok ops [])|]. intros ?; cbv beta.
+    destruct raises.
+    - apply t_raise. intros w H. eapply open_safe. exact H.
+    - apply t_ret. auto.
+  Qed.
+
+  Lemma sync_handler e (Q : unit -> world -> Prop) :
+    triple (L Safe) (catch (prim EClose) (fun _ => ret tt) ;;; rm_part_file c ;;; raise e) Q ES (L Safe).
+  Proof.
+    eapply t_bind with (Q := QS).
+    - eapply t_catch; [apply weak_safe; exact I|]. intro e2. apply t_ret. auto.
+    - intros ?; cbv beta. apply cleanup_raise.
+  Qed.
+
+  Lemma exit_true_ok :
+    triple (L Safe) (exit_ c true) QS ES (L Safe).
+  Proof.
+    unfold exit_. apply t_getfile. intro f.
+    eapply t_bind with (Q := QS).
+    - eapply t_conseq with (P' := L Safe) (Q' := QS) (E' := ES) (C' := L Safe); auto; [|tauto].
+      assert (H : triple (L Safe)
+                    (catch (prim EFlush;;; prim EFsync;;; prim EClose)
+                           (fun e => catch (prim EClose) (fun _ => ret tt);;; rm_part_file c;;; raise e))
+                    QS ES (L Safe)).
+      { eapply t_catch; [|intro e; apply sync_handler].
+        eapply t_bind with (Q := QS); [apply weak_safe; exact I|]. intros ?; cbv beta.
+        eapply t_bind with (Q := QS); [apply weak_safe; exact I|]. intros ?; cbv beta.
+        apply weak_safe; exact I. }
+      destruct f; [apply t_ret; auto|exact H|exact H].
+    - intros ?; cbv beta. apply rm_part_safe.
+  Qed.
+
+  Lemma atomic_rename_ok :
+    triple (L (St_ready new)) (atomic_rename c) (fun _ => L St_done) ES (L Safe).
+  Proof.
+    unfold atomic_rename. destruct (c_overwrite c).
+    - apply tr_rename.
+    - eapply t_bind; [apply tr_link|]. intros ?; cbv beta. apply tr_unlink_post.
+  Qed.
+
+  Lemma exit_false_ok :
+    triple (L (St_open new)) (exit_ c false) (fun _ => L St_done) ES (L Safe).
+  Proof.
+    unfold exit_. apply t_getfile. intro f.
+    eapply t_bind with (Q := fun _ => L (St_ready new)).
+    - assert (H : triple (L (St_open new))
+                    (catch (prim EFlush;;; prim EFsync;;; prim EClose)
+                           (fun e => catch (prim EClose) (fun _ => ret tt);;; rm_part_file c;;; raise e))
+                    (fun _ => L (St_ready new)) ES (L Safe)).
+      { eapply t_catch with (E' := ES); [|intro e; apply sync_handler].
+        eapply t_bind; [apply tr_flush|]. intros ?; cbv beta.
+        eapply t_bind; [apply tr_fsync|]. intros ?; cbv beta.
+        apply tr_close. }
+      destruct f.
+      + eapply t_conseq; [apply (t_false (ret tt) (fun _ => L (St_ready new)) ES (L Safe))| |idc|idc|idc].
+        intros w ((( _ & (p & buf & Hf & _) & _) & _) & Hfile). congruence.
+      + eapply t_conseq; [exact H|tauto|auto|auto|auto].
+      + eapply t_conseq; [exact H|tauto|auto|auto|auto].
+    - intros ?; cbv beta. eapply t_catch; [apply atomic_rename_ok|]. intro e.
+      apply cleanup_raise.
   Qed.
 
 End Inv.
